@@ -21,6 +21,11 @@ def check(ctx):
         c06.containers(ctx)
     G.definition_loop_locality(ctx, "C17.3")
     G.param_match_predicate(ctx, "C17.4")
+    # which instantiation of a generic definition is met first must not matter: every position of a definition is recovered as the parameter it
+    # is (nested positions are resolved with the SAME parent parameters, never through the public entry that starts with none)
+    G.resolver_entry_flags(ctx, "C17.4")
+    with ctx.only(lambda k: k.startswith("resolver/")):
+        G.resolver_arms(ctx, "C17.4")
     G.module_template(ctx, "C17.2")
     G.phantom_data(ctx, "C17.1")
     # keep-first and shape grouping compare (later, earlier): the outcome is independent of entry order only if the shape
